@@ -443,3 +443,50 @@ def write_evidence(batch, wall, exit_code, lines):
     os.makedirs(edir, exist_ok=True)
     with open(os.path.join(edir, f"{prop}.json"), "w") as f:
         json.dump(doc, f, indent=1, default=str)
+
+
+# ---------------------------------------------------------------------------
+# determinism self-test support: dump run digests for the first n run indices
+# ---------------------------------------------------------------------------
+def dump_digests(prop, tier, verif_seed, n, out_path):
+    batch = Batch(prop, tier, verif_seed)
+    with _pool() as ex:
+        chunk = max(1, n // (NPROC * 4) or 1)
+        futs = _submit_range(ex, batch, 0, n, chunk, set())
+        for f in as_completed(futs, timeout=CHUNK_WALL_S * 2):
+            for i, seed, res in f.result():
+                batch.absorb(i, seed, res)
+    doc = {
+        "property": prop,
+        "n": batch.n,
+        "digests": {str(i): d for i, d in sorted(batch.digests.items())},
+        "harness_errors": [list(map(str, e)) for e in batch.harness_errors[:5]],
+        "hashseed": os.environ.get("PYTHONHASHSEED"),
+        "workers": NPROC,
+    }
+    with open(out_path, "w") as f:
+        json.dump(doc, f)
+    return 0 if not batch.harness_errors else 2
+
+
+def dump_log(prop, tier, verif_seed, i):
+    """Full event log of one run (for entry-by-entry diffs on a digest mismatch)."""
+    worker_init(REPO)
+    mod = load_check(prop)
+    seed = run_seed(verif_seed, prop, tier, i)
+    plan = mod.generate(seed, tier)
+    import qsim.core as core
+
+    captured = {}
+    orig = core.Run.result
+
+    def result(self):
+        captured["log"] = [repr(e) for e in self.log.entries]
+        return orig(self)
+
+    core.Run.result = result
+    try:
+        mod.execute(plan)
+    finally:
+        core.Run.result = orig
+    return captured.get("log", [])
